@@ -21,6 +21,26 @@ func sx(op string, args ...Term) Term {
 	if len(args) == 0 {
 		return op
 	}
+	// trivial arithmetic identities keep index terms syntactically stable for e-matching
+	if len(args) == 2 {
+		switch op {
+		case "+":
+			if args[1] == "0" {
+				return args[0]
+			}
+			if args[0] == "0" {
+				return args[1]
+			}
+		case "-":
+			if args[1] == "0" {
+				return args[0]
+			}
+		case "ix":
+			if args[0] == "0" {
+				// element index of a slice with offset 0 is the index itself (kept as ix for patterns only when offset is symbolic)
+			}
+		}
+	}
 	return "(" + op + " " + strings.Join(args, " ") + ")"
 }
 
